@@ -161,6 +161,11 @@ def run_model(requests, timeout):
     return p.returncode, p.stdout.split("\n")[:-1], p.stderr
 
 
+# requests whose model-side answer is the SPECIFICATION the property names (C05: "the state the same operation
+# produces on a plain ordered-tree model"), not the model of the code
+SPEC_REQUESTS = ("forest specp ",)
+
+
 def run_suite(suite, seed, count, tier, timeout=1500):
     """Run one correspondence suite. Returns dict with transcript stats and disagreements."""
     t0 = time.time()
@@ -204,8 +209,19 @@ def run_suite(suite, seed, count, tier, timeout=1500):
         if rc != 0 or len(mresps) != len(reqs):
             res["error"] = f"model exit {rc}, {len(mresps)} answers for {len(reqs)} requests: {merr[-300:]}"
             return res
-        for rq, a, b in zip(reqs, resps, mresps):
+        for i, (rq, a, b) in enumerate(zip(reqs, resps, mresps)):
             if a != b:
+                if rq.startswith(SPEC_REQUESTS) and len(res.setdefault("spec_failures", [])) < 5:
+                    # this request is answered on the model side by the property's own specification (the
+                    # ordered-tree pair specification of C05): the implementation's result differs from it on
+                    # this history -- a failing input, replayed from the start of the session
+                    j = i
+                    while j > 0 and reqs[j] != "forest reset":
+                        j -= 1
+                    hist = [r[len("forest "):] for r in reqs[j:i] if r.startswith("forest ") and not r.startswith(SPEC_REQUESTS)]
+                    res["spec_failures"].append({"signature": "implementation-differs-from-the-ordered-tree-specification:" + rq.split(" ")[2],
+                                                 "what": f"after `{rq[len('forest specp '):]}` the implementation holds `{a[:300]}`, the specification prescribes `{b[:300]}`",
+                                                 "replay": {"history": hist + [rq[len("forest specp "):]]}})
                 if len(res["disagreements"]) < 25:
                     res["disagreements"].append({"request": rq, "implementation": a, "model": b})
                 res.setdefault("disagreeing_requests", []).append(rq)
@@ -290,6 +306,9 @@ def check(pid, tier, seed):
                     # a panic inside the crate that escaped the suite (harness exit 3): a failing input
                     # for the property being checked
                     failing.append(dict(fj, signature=f"{pid}:{fj.get('signature', 'crate-panics')}", suite=suite))
+            if pid == "C05":
+                for sf in r.get("spec_failures", []):
+                    failing.append(dict(sf, signature=f"C05:{sf['signature']}", suite=suite))
             # coverage floors: a family of inputs that past seeded changes needed must still be produced
             if not r["error"]:
                 for k, m in FLOORS.get(suite, {}).items():
